@@ -39,11 +39,11 @@ type Case struct {
 // Kinds of fault per message kind.
 var (
 	simpleKinds  = []string{"lost", "error-reply", "duplicate"}
-	requestKinds = []string{"share-random", "share-for-other-id", "commitment-altered", "vector-short-consistent", "vector-long-consistent", "vector-truncated", "vector-extended"}
+	requestKinds = []string{"share-random", "share-for-other-id", "commitment-altered", "vector-short-consistent", "vector-long-consistent", "vector-truncated", "vector-extended", "vector-empty", "share-empty"}
 	// after the honest contribution has been delivered and answered, a second one arrives on the same
 	// edge with a bad share (same or fresh vector): it must be rejected and change nothing
 	replayKinds = []string{"replay-share-random", "replay-share-for-other-id"}
-	replyKinds  = []string{"reply-share-random", "reply-share-for-other-id", "reply-commitment-altered", "reply-vector-short-consistent", "reply-vector-long-consistent", "reply-vector-truncated", "reply-vector-extended"}
+	replyKinds  = []string{"reply-share-random", "reply-share-for-other-id", "reply-commitment-altered", "reply-vector-short-consistent", "reply-vector-long-consistent", "reply-vector-truncated", "reply-vector-extended", "reply-vector-empty", "reply-share-empty"}
 )
 
 func kindsFor(msg string) []string {
@@ -116,6 +116,10 @@ func tamper(kind string, secret *[]byte, vvec *[][]byte, shareFor uint64, otherI
 		*vvec = v[:len(v)-1]
 	case "vector-extended":
 		*vvec = append(append([][]byte{}, (*vvec)...), randomPoint())
+	case "vector-empty":
+		*vvec = nil
+	case "share-empty":
+		*secret = nil
 	}
 }
 
